@@ -3,7 +3,8 @@
    Model: model/Inputs.v (every Rust unwrap / index of the mirrored code is the explicit outcome
    OPanic), at the current commit: the classes 1-4 found by this check (null on a nullable Json
    field, empty verifying key, keyword / digit-first aliases, unclosed Ifnull) were repaired by
-   8ac9d00, b4e6381, 601cdc3 and their theorems hold at full strength; classes 5-7 stay open.
+   8ac9d00, b4e6381, 601cdc3, and classes 9-10 (ConnectionInfo frame length, dates beyond the
+   calendar) by feffa39, 8b3434e: their theorems hold at full strength; classes 5-8 stay open.
    Partial: a Gallina model cannot exhibit a panic or a dead thread of code it does not mirror;
    that part of the property is observed by the correspondence harness (panic hook, probe after
    every input), not proved — see C14_full. *)
@@ -22,8 +23,7 @@ Definition C14_full (observe : c14case -> list Z) : Prop :=
 
 (* (0) master statement about the functions the harness evaluates: on every input outside the
    open finding classes (5 blank search text, 6 parser stack, 7 nested non-nullable references,
-   8 WHERE filter on the selected json value in an aggregate selection, 9 ConnectionInfo length,
-   10 date beyond the calendar),
+   8 WHERE filter on the selected json value in an aggregate selection),
    what the model says the implementation observes satisfies the property's oracle — no panic
    code, every probe answered, every valid request Ok, parentheses paired and SELECTs linear in
    the request.  All case kinds, sequences of any length. *)
@@ -175,33 +175,36 @@ Theorem C14_clause_witnesses :
 Proof. exact clause_witnesses_w. Qed.
 Print Assumptions C14_clause_witnesses.
 
-(* (7) frames received from a peer (network/endpoint.rs): the reader loops of start_channels never
-   request a buffer beyond their limit and never deliver more frames than were sent, for every
-   stream; the ConnectionInfo reader of start_accepted requests exactly the announced length before
-   any check (class 9, refuted with the 4 GiB witness).  Rows ingested with a date: the writer
-   thread only panics from the last day of the calendar on (class 10: its next day does not exist) *)
+(* (7) frames received from a peer (network/endpoint.rs): no reader - the ConnectionInfo reader of
+   start_accepted (since feffa39) and the reader loops of start_channels - ever requests a buffer
+   beyond its limit or delivers more frames than were sent, for every stream.  Rows ingested with a
+   date (since 8b3434e): no date makes the writer thread panic; a date that passes the check has
+   its day and its next day in the calendar *)
 Theorem C14_frame_len_guard_holds : forall limit fs,
   (snd (read_channel limit fs) <= limit)%N /\ (fst (read_channel limit fs) <= N.of_nat (List.length fs))%N.
 Proof. exact read_channel_bounded. Qed.
 Print Assumptions C14_frame_len_guard_holds.
 
-Theorem C14_conn_info_allocation_refuted : forall len avail dec, snd (read_conn_info (FFrame len avail dec)) = len.
-Proof. exact conn_info_requests_len. Qed.
-Print Assumptions C14_conn_info_allocation_refuted.
+Theorem C14_conn_info_allocation_holds : forall limit f, (snd (read_conn_info limit f) <= limit)%N.
+Proof. exact conn_info_bounded. Qed.
+Print Assumptions C14_conn_info_allocation_holds.
 
-Theorem C14_ingest_date_outside_known : forall rf md,
-  (Z.leb rf md && Z.leb last_day_start_ms md) = false -> ingest_obs rf md = [0; 1].
-Proof. exact ingest_safe_before_last_day. Qed.
-Print Assumptions C14_ingest_date_outside_known.
+Theorem C14_ingest_date_holds : forall rf md, ingest_obs rf md = [0; 1].
+Proof. exact ingest_never_kills_the_writer. Qed.
+Print Assumptions C14_ingest_date_holds.
+
+Theorem C14_valid_date_has_next_day : forall ms,
+  is_valid_date ms = true -> (day ms + ms_per_day <= last_day_start_ms)%Z.
+Proof. exact valid_date_has_next_day. Qed.
+Print Assumptions C14_valid_date_has_next_day.
 
 Theorem C14_frame_and_date_witnesses :
-  run_C14 (CFrames (FFrame 4294967295 0 false) [] [] []) = [0; 0; 0; 0; 1; 1] /\
-  spec_C14 (CFrames (FFrame 4294967295 0 false) [] [] []) [0; 0; 0; 0; 1; 1] = false /\
-  known_C14 (CFrames (FFrame 4294967295 0 false) [] [] []) = [9] /\
+  run_C14 (CFrames (FFrame 4294967295 0 false) [] [] []) = [0; 0; 0; 0; 0; 1] /\
+  spec_C14 (CFrames (FFrame 4294967295 0 false) [] [] []) [0; 0; 0; 0; 0; 1] = true /\
   run_C14 (CFrames (FFrame 90 90 true) [] [FFrame 45 45 true; FFrame 4294967295 45 false; FFrame 45 45 true] []) = [1; 0; 1; 0; 0; 1] /\
-  run_C14 (CIngest 1000 8210266876800000) = [2; 0] /\ known_C14 (CIngest 1000 8210266876800000) = [10] /\
-  run_C14 (CIngest 1000 8210266876799999) = [0; 0] /\ known_C14 (CIngest 1000 8210266790400000) = [10] /\
-  run_C14 (CIngest 1000 8210266790399999) = [0; 1] /\ run_C14 (CIngest 1000 (-5)) = [0; 1].
+  run_C14 (CIngest 1000 9223372036854775807) = [0; 1] /\ run_C14 (CIngest 1000 8210266876800000) = [0; 1] /\
+  run_C14 (CIngest 1000 8210266790400000) = [0; 1] /\ run_C14 (CIngest 1000 8210266790399999) = [0; 1] /\
+  run_C14 (CIngest 1000 (-5)) = [0; 1] /\ known_C14 (CIngest 1000 9223372036854775807) = [].
 Proof. exact frame_witnesses_w. Qed.
 Print Assumptions C14_frame_and_date_witnesses.
 
